@@ -433,6 +433,22 @@ def check_c07(w):
                 w.violation('C07', 'cancel-not-reported',
                             't%d was %s when cancelled via %s but result() raised %r'
                             % (t['idx'], st, ev['how'], e))
+        if _is_cancel_exc(e):
+            # "... runs its cleanups": what C05 / C06 demand after a failure
+            for u in w.s3.uploads.values():
+                if u['returned'] and w.t_of_key(u['key']) is t and not any(
+                        r['op'] == 'abort_multipart_upload' and r.get('UploadId') == u['id']
+                        for r in w.s3.log):
+                    w.violation('C07', 'cleanup-missing',
+                                't%d was cancelled (%s) but its multipart upload %s was never '
+                                'aborted (state %s)' % (t['idx'], ev['how'], u['id'], u['state']),
+                                {'variant': 'abort'})
+            if t['type'] == 'download' and t['spec'].get('dst') == 'path':
+                temps = [x for x in w.fs.files if x.startswith(t['path'] + '.')]
+                if temps:
+                    w.violation('C07', 'cleanup-missing',
+                                't%d was cancelled (%s) but temporary file(s) %r remain'
+                                % (t['idx'], ev['how'], temps), {'variant': 'temp'})
         if st == 'not-started' and ev['exact'] and n_calls:
             w.violation('C07', 'request-after-cancel-of-not-started',
                         't%d was not started when cancelled but %d S3 request(s) were issued: %r'
